@@ -6,7 +6,7 @@ From PG Require Import Model.Terms Proofs.C14Dedup Proofs.C14Dist Proofs.C14Plur
 Import ListNotations.
 Open Scope string_scope.
 Open Scope list_scope.
-Ltac wf := repeat first [apply Forall_nil | apply Forall_cons | reflexivity | progress simpl].
+Ltac wf := repeat first [apply Forall_nil | apply Forall_cons | reflexivity | split | progress simpl].
 
 (* (a + b) + c and a + (b + c) are the same term list, for all term expressions and for all lists of terms *)
 Theorem C14_assoc : (forall a b c : expr, eval (EAdd (EAdd a b) c) = eval (EAdd a (EAdd b c))) /\
@@ -97,8 +97,9 @@ Proof. exact (ex_intro _ _ w_gam_set_params_dropped). Qed.
 Print Assumptions C14_model_set_params_refuted.
 
 (* build_from_info (info t) has the settings that determine columns / penalties / constraints of t -- also after compiling both
-   on the same data -- when t has no edge knots set (custom or from an earlier fit), a tensor term has no `by`, and the
-   attributes a FactorTerm hides (spline_order, basis, dtype, by, constraints, n_splines) are at their constructor values *)
+   on the same data -- when t has no edge knots set (custom or from an earlier fit) and the attributes a FactorTerm hides
+   (spline_order, basis, dtype, by, constraints, n_splines) are at their constructor values.  A tensor term's `by` IS carried
+   over (since the repair "a tensor term rebuilt from its info lost its by-variable"); only its `verbose` flag is not. *)
 Theorem C14_info_roundtrip_partial :
   (forall t, wf_term t -> roundtrip_guard t = true -> exists t', build_from_info (info t) = Some t' /\ behav t' = behav t) /\
   (forall dk nc t, wf_term t -> roundtrip_guard t = true ->
@@ -107,20 +108,15 @@ Proof. exact (conj info_roundtrip_guarded info_roundtrip_compiled_guarded). Qed.
 Print Assumptions C14_info_roundtrip_partial.
 
 Example C14_info_roundtrip_nonvacuous :
-  let t := TTe [SS w_spline; SF (mkS 1 20 0 [NI 2] [Some "l2"] [None] "ps" "categorical" None None true) "dummy"] None true in
+  let t := TTe [SS w_spline; SF (mkS 1 20 0 [NI 2] [Some "l2"] [None] "ps" "categorical" None None true) "dummy"] (Some 2%Z) true in
   wf_term t /\ roundtrip_guard t = true.
 Proof. cbv zeta. split; [wf | reflexivity]. Qed.
 
-(* the unguarded statement is false, three ways *)
+(* the unguarded statement is false, two ways *)
 Theorem C14_info_roundtrip_refuted_edge_knots :
   exists t, wf_term t /\ forall t', build_from_info (info t) = Some t' -> behav t' <> behav t.
 Proof. exact (ex_intro _ w_knots w_knots_refutes). Qed.
 Print Assumptions C14_info_roundtrip_refuted_edge_knots.
-
-Theorem C14_info_roundtrip_refuted_tensor_by :
-  exists t, wf_term t /\ forall t', build_from_info (info t) = Some t' -> behav t' <> behav t.
-Proof. exact (ex_intro _ w_tensor_by w_tensor_by_refutes). Qed.
-Print Assumptions C14_info_roundtrip_refuted_tensor_by.
 
 Theorem C14_info_roundtrip_refuted_hidden_factor :
   exists t, wf_term t /\
